@@ -103,8 +103,8 @@ fn main() {
             let seed: u64 = args.get(2).and_then(|s| s.parse().ok()).unwrap_or(1);
             let size: usize = args.get(3).and_then(|s| s.parse().ok()).unwrap_or(20);
             let mut rng = rng::Rng::new(seed);
-            let prog = gen::gram::generate(&mut rng, gen::gram::GramOpts { size, ..Default::default() });
-            let lay = gen::layout::Layout::build(&prog, &mut rng, &gen::layout::DecoOpts::light(), false, "  ");
+            let prog = gen::gram::generate(&mut rng, gen::gram::GramOpts { size, extended: std::env::var_os("GEN_EXTENDED").is_some(), ..Default::default() });
+            let lay = gen::layout::Layout::build(&prog, &mut rng, &(if std::env::var_os("GEN_PLAIN").is_some() { gen::layout::DecoOpts::none() } else { gen::layout::DecoOpts::light() }), false, "  ");
             print!("{}", lay.render());
         }
         _ => usage(),
